@@ -68,6 +68,18 @@ func (l *Loop) findRange() {
 					l.Key = x.X
 				}
 			}
+		case *ssa.UnOp:
+			// for v := range ch  lowers to  t = <-ch (comma-ok) in the loop header
+			if x.Op.String() == "<-" && x.CommaOk {
+				l.Ranged = x.X
+				if refs := x.Referrers(); refs != nil {
+					for _, r := range *refs {
+						if e, ok := r.(*ssa.Extract); ok && e.Index == 0 {
+							l.Elem = e
+						}
+					}
+				}
+			}
 		case *ssa.Next:
 			if r, ok := x.Iter.(*ssa.Range); ok {
 				l.Ranged = r.X
